@@ -75,6 +75,7 @@ T06 == /\ Ev("C06")
        /\ ~E.got.panicked
        /\ IF E.got.accepted
           THEN /\ Strs(TokD(E.got.tree)) = E.toks        \* nothing unaccounted for, nothing reinterpreted
+               /\ \A i \in 1..Len(E.toks) : E.toks[i] \notin NonAscii   \* names are ASCII
                /\ TreeFacts(E.got.tree)
           ELSE E.got.notree
 
